@@ -41,5 +41,22 @@ fn main() {
         });
         assert_eq!(wins.load(std::sync::atomic::Ordering::SeqCst), 2, "CRelFullIndex: not exactly one winner per key");
     }
+    // indices created under a one-worker pool (or outside any pool) and filled by the workers of a two-worker pool:
+    // the worker index a structure shards by need not be smaller than the number of shards it was created with
+    {
+        let small = ascent::rayon::ThreadPoolBuilder::new().num_threads(1).build().unwrap();
+        let big = ascent::rayon::ThreadPoolBuilder::new().num_threads(2).build().unwrap();
+        let no: ascent::internal::CRelNoIndex<(i32,)> = small.install(Default::default);
+        let rel: ascent::internal::CRelIndex<(i32,), (i32,)> = small.install(Default::default);
+        let lat: ascent::internal::CLatIndex<(i32,), usize> = small.install(Default::default);
+        big.install(|| {
+            ascent::rayon::join(
+                || { for i in 0..3 { CRelIndexWrite::index_insert(&no, (), (i,)); CRelIndexWrite::index_insert(&rel, (i % 2,), (i,)); CRelIndexWrite::index_insert(&lat, (i % 2,), i as usize); } },
+                || { for i in 0..3 { CRelIndexWrite::index_insert(&no, (), (10 + i,)); CRelIndexWrite::index_insert(&rel, (i % 2,), (10 + i,)); CRelIndexWrite::index_insert(&lat, (i % 2,), 10 + i as usize); } },
+            );
+        });
+        let (mut no, mut rel, mut lat) = (no, rel, lat);
+        no.freeze(); rel.freeze(); lat.freeze();
+    }
     println!("race: ok");
 }
